@@ -671,6 +671,11 @@ fn make_groups(r: &mut Rng, w: &World, zi: usize, universe: &[N]) -> Vec<(RRset,
             v.signer = k2.zone.clone();
             RRset { sigs: vec![sign(k2, &[nrec.clone()])], rrs: vec![nrec] }
         };
+        // the closest encloser the validator derives: RRSIG labels field below the owner's label count
+        // (this includes a record at a wildcard owner itself, whose labels field does not count the `*`)
+        if let Some(ZD::Rrsig(g)) = set.sigs.first().map(|x| x.data()) {
+            if g.labels() < ol { let l = labels_of(&owner); v.ce = name_from_labels(&l[(ol - g.labels()) as usize..]); }
+        }
         sets.push((set, v));
     }
     sets
